@@ -337,7 +337,7 @@ pub fn property() -> Property {
             Box::new(GenPart {
                 name: "random-inputs",
                 rule: "random PDU/total length/protocol type/label",
-                cases: (150_000, 3_000_000),
+                cases: (1_200_000, 3_000_000),
                 strategy: rand_strategy,
                 check: check_rand,
                 required_classes: &["label0", "label3", "label6", "pdu>4095", "pdu-empty"],
@@ -345,7 +345,7 @@ pub fn property() -> Property {
             Box::new(GenPart {
                 name: "end-to-end",
                 rule: "fragmented transfer, trailer and calculator arguments",
-                cases: (20_000, 400_000),
+                cases: (160_000, 400_000),
                 strategy: e2e_strategy,
                 check: check_e2e,
                 required_classes: &["fragmented", "first-fragment-substituted", "first-fragment-full-label"],
